@@ -17,6 +17,10 @@ type POp struct {
 	Fill  byte          `json:"fill,omitempty"`  // reset: content of the spare capacity (not part of the data)
 	Empty bool          `json:"empty,omitempty"` // write: when Data is empty, hand over an empty non-nil slice instead of nil
 	Flags int           `json:"flags,omitempty"` // parse
+	// Reuse (reset): the caller refills the array it handed to the previous
+	// Reset(data) with the new data and hands it over again (if it is large
+	// enough; else a new slice as always).
+	Reuse bool `json:"reuse,omitempty"`
 	Off   int64         `json:"off,omitempty"`   // readat/byteat: absolute offset
 	Len   int           `json:"len,omitempty"`   // readat: len(p)
 	R     *ReaderScript `json:"r,omitempty"`     // readfrom
@@ -104,6 +108,7 @@ type parserExec struct {
 	contentChanges                int
 
 	excludedD18, excludedD22                     int
+	prevReset                                    []byte // the array handed to the last Reset(data)
 	c11Blocks, c11MLM, c11Mixed, c11AfterRebuild int
 	c12Matches, c12AfterRebuild, c12AfterCut     int
 	runBlocks, runBlocksAfterShrink              int
@@ -346,7 +351,53 @@ func (x *parserExec) doWrite(op POp) {
 	}
 }
 
+// doReadFromMulti: ReadFrom on an io.MultiReader of standard readers. What the
+// reader handed out is what it does not have any more afterwards.
+func (x *parserExec) doReadFromMulti(op POp) {
+	data := []byte(op.R.Data)
+	rd := multiReader(data, op.R.Multi)
+	var n int64
+	var err error
+	before := x.buffered()
+	if x.call("ReadFrom", []string{"C15", "C16"}, func() { n, err = x.p.ReadFrom(rd) }) {
+		return
+	}
+	if x.keepRes {
+		x.results = append(x.results, []any{"readfrom", n, errName(err)})
+	}
+	rest, rerr := io.ReadAll(rd)
+	handed := len(data) - len(rest)
+	if rerr != nil || handed < 0 || !bytesEqual(rest, data[maxInt(handed, 0):]) {
+		x.fatal([]string{"C15"}, "after ReadFrom the io.MultiReader still has %d bytes (%v) that are not the rest of its %d bytes: bytes were taken from the reader and dropped", len(rest), rerr, len(data))
+		return
+	}
+	if n != int64(handed) {
+		x.report("C15", "ReadFrom returned n=%d but the io.MultiReader handed out %d of its %d bytes", n, handed, len(data))
+	}
+	x.fed = append(x.fed, data[:handed]...)
+	x.added(handed)
+	if x.buffered() > x.cc.BufferSize {
+		x.report("C15", "buffer holds %d bytes > BufferSize %d after ReadFrom (had %d, reader handed out %d)",
+			x.buffered(), x.cc.BufferSize, before, handed)
+	}
+	full := x.buffered() >= x.cc.BufferSize
+	switch {
+	case err == lz.ErrFullBuffer && full:
+		x.readFromFull = true
+	case err == io.EOF && handed == len(data):
+	case err == io.EOF:
+		x.report("C15", "ReadFrom returned io.EOF with %d of %d bytes buffered although the io.MultiReader had %d bytes left", x.buffered(), x.cc.BufferSize, len(rest))
+	default:
+		x.report("C15", "ReadFrom on an io.MultiReader of standard readers = (%d, %s) with %d of %d bytes buffered and %d bytes left in the reader",
+			n, errName(err), x.buffered(), x.cc.BufferSize, len(rest))
+	}
+}
+
 func (x *parserExec) doReadFrom(op POp) {
+	if len(op.R.Multi) > 0 {
+		x.doReadFromMulti(op)
+		return
+	}
 	r := newScriptReader(*op.R)
 	var n int64
 	var err error
@@ -426,8 +477,13 @@ func (x *parserExec) doShrink() {
 func (x *parserExec) doReset(op POp) {
 	var data []byte
 	if !op.Nil {
-		data = make([]byte, len(op.Data), len(op.Data)+op.Cap)
+		if need := len(op.Data) + op.Cap; op.Reuse && x.prevReset != nil && cap(x.prevReset) >= need {
+			data = x.prevReset[:len(op.Data):need]
+		} else {
+			data = make([]byte, len(op.Data), len(op.Data)+op.Cap)
+		}
 		copy(data, op.Data)
+		x.prevReset = data[:0:cap(data)]
 		// The spare capacity is not part of the data handed over; what it
 		// holds must not matter (capFillXor differs between twins).
 		if f := op.Fill ^ x.capFillXor; f != 0 {
